@@ -402,7 +402,9 @@ int simk_pthread_rwlock_unlock(pthread_rwlock_t *l) {
 
 // ---------------------------------------------------------------- threads
 int simk_pthread_create(pthread_t *th, const pthread_attr_t *attr, void *(*fn)(void *), void *arg) {
-  yield_point();
+  // The library holds its creation spinlock across this call. In flavour A the spinlock is real machine code without
+  // scheduling points, so another new thread entering its proxy here would spin for ever: no scheduling point in A.
+  if (g_flavour_tsan) yield_point();
   Task *c = cur();
   if (!c) infra_error("pthread_create outside a task");
   if (shim::fail_create_kth > 0 && --shim::fail_create_kth == 0) { fired(ST_SYSCALL); ev("thread_create_fail"); return EAGAIN; }
